@@ -244,6 +244,9 @@ STACKS = [
     S('aff_nn_mortonb_s2_f3', ['affine', 'nn', 'mortonb:s2', 'array:f3'], 'T', family='WN2M3f'),
     S('aff_lind_strided_s2_f2', ['affine', 'lind', 'strided:s2', 'array:f2'], thr=True),
     S('aff_nnd_strided_s3_d3', ['affine', 'nnd', 'strided:s3', 'array:d3'], 'T'),
+    S('const_f2_i3', ['const:f2:i3']),
+    S('ident_i2', ['ident:i2']),
+    S('const_s3_u2', ['const:s3:u2'], 'T'),
     S('castd_strided_s2_f3', ['castd', 'strided:s2', 'array:f3'], thr=True),
     S('clamp_lind_strided_s2_d2', ['clamp', 'lind', 'strided:s2', 'array:d2'], thr=True),
     S('deref_strided_s3_f1', ['deref', 'strided:s3', 'array:f1'], thr=True),
